@@ -121,6 +121,11 @@ class Check:
                 self.unsupported.append((fname, c.cfg_name(cfg), "engine error: " + "".join(traceback.format_exception_only(type(e), e)).strip() + " @ " + traceback.format_exc().splitlines()[-3].strip()))
                 continue
             n_obl_before = len(self.obls)
+            if isinstance(state.get("inputs"), dict) and state["inputs"].get("lines"):
+                # block contract: only this contiguous statement block of the function is the verified text (the rest is dropped)
+                info.setdefault("verified_blocks", [])
+                if list(state["inputs"]["lines"]) not in info["verified_blocks"]:
+                    info["verified_blocks"].append(list(state["inputs"]["lines"]))
             for k, (cx, out) in enumerate(paths):
                 for nm, f in cx.axioms:
                     self.axioms[nm] = self.axioms.get(nm, 0) + 1
